@@ -38,7 +38,7 @@ CLAIMED = {
     },
     "C07": {
         "technique": "Coq proof (induction over the candidate loop of the transliterated sizing policy) + request-by-request correspondence of the policy with the crate",
-        "text": "C07_never_exceeds / C07_held_stays_under_limit / C07_fits_in_chunk_succeeds / C07_none_is_transparent are proved of the transliterated policy of alloc_layout_slow; the policy is compared with the crate request by request (sizes, alignments, order, outcome) on every run, and sp_limit_ok is evaluated on every chunk the implementation obtains under a limit. " + ARENA_TEXT,
+        "text": "C07_never_exceeds / C07_held_stays_under_limit / C07_fits_in_chunk_succeeds / C07_none_is_transparent are proved of the transliterated policy of alloc_layout_slow; the policy is compared with the crate request by request (sizes, alignments, order, outcome) on every run, and sp_limit_ok is evaluated on every chunk the implementation obtains under a limit. Whole histories: C07_history_invariant / C07_never_exceeded_over_histories (for every history of the crate's policy, whatever the allocator answers, allocated_bytes <= limit at every reachable state as long as the limit is never set below what is held); the same statement is evaluated on the implementation's allocated_bytes() after every operation. " + ARENA_TEXT,
         "design_ref": "DESIGN.md §6 C07",
     },
     "C09": {
